@@ -9,7 +9,8 @@ from harness.lib import hx, zl, cz, cbool, clist
 
 ID = 'C10'
 RULE = ('genomes of 1..4 chromosomes (sizes 1..S; names where one is a prefix of another; names with "_" under the '
-        'keep-all and the ignore-underscore filter) x interval / location sets per chromosome with endpoints drawn '
+        'keep-all and the ignore-underscore filter; in 60% of the scenarios followed by 0..2 Genome.with_ignored_added calls of '
+        '0..2 existing or new names, entries also on the added names) x interval / location sets per chromosome with endpoints drawn '
         'mostly from {0,1,size-1,size}, x every operation of the property (coordinates, pileup, mask, merged(d), clip, '
         'extended_to_size, sorted, get_location, get_windows, array and sequence extraction, Geometry.*); '
         'non-trivial = at least two included chromosomes and some entry touches a chromosome end '
@@ -46,6 +47,10 @@ PER_FILE = 40
 # outside the property's quantifier (intervals of a chromosome) and is only generated once notes/C10.fix-4.diff is
 # committed (then set this to True and switch m_clip_start / m_clip_stop in Model/C10.v).
 CLIP_OUTSIDE_FULL = True
+# Genome.from_file(fasta).with_ignored_added([<name not in the file>]).read_sequence()[intervals] raises KeyError at HEAD
+# (IndexedFasta._get_interval_sequences_fast looks every label of the encoding up in the .fai) — notes/C10.fix-5.diff.
+# Until that is committed the indexed-FASTA route is only generated with steps that add existing names.
+FASTA_WITH_NEW_IGNORED = False
 
 ERR = {'AssertionError': 1, 'AttributeError': 2, 'IndexError': 3, 'GenomeError': 4, 'Exception': 5,
        'ComputationException': 6}
@@ -178,7 +183,8 @@ def _ops_for(rng, genome, filt, es, es_all, shuffled, locs, tier, added=()):
         seqs = [[rng.choice(b'ACGT') for _ in range(s)] for n, s in ext]
         for st in (0, 1):
             add(['seq', st, 'dict'], ne, seqs)
-            add(['seq', st, 'fasta'], ne, seqs)
+            if FASTA_WITH_NEW_IGNORED or len(ext) == len(genome):
+                add(['seq', st, 'fasta'], ne, seqs)
     return out
 
 
@@ -471,8 +477,12 @@ def to_coq(case, o):
 
 
 # ----------------------------------------------------------------------------- evidence helpers
+def _g(case):
+    return _ext(case['genome'], case.get('added') or [])
+
+
 def _touches_end(case):
-    g = case['genome']
+    g = _g(case)
     return any(e[1] == 0 or e[2] == g[e[0]][1] for e in case['entries'])
 
 
@@ -486,7 +496,7 @@ def nontrivial(case, o):
 
 
 def describe(case, o):
-    return dict(genome=case['genome'], filter=case['filter'], op=case['op'], entries=case['entries'][:6],
+    return dict(genome=case['genome'], filter=case['filter'], with_ignored_added=case.get('added') or [], op=case['op'], entries=case['entries'][:6],
                 observed={k: v for k, v in o.items() if k != 'msg'})
 
 
@@ -503,11 +513,14 @@ def distribution(cases, obs):
         d['entries'][ne] = d['entries'].get(ne, 0) + 1
         if isinstance(o, dict) and o.get('t') == 'err':
             d['errors'][o.get('exc', '?')] = d['errors'].get(o.get('exc', '?'), 0) + 1
-        g = c['genome']
+        g = _g(c)
+        d.setdefault('with_ignored_added_steps', {})
+        k2 = str(len(c.get('added') or []))
+        d['with_ignored_added_steps'][k2] = d['with_ignored_added_steps'].get(k2, 0) + 1
         ends = {e[0] for e in c['entries'] if e[2] == g[e[0]][1]}
         zeros = {e[0] for e in c['entries'] if e[1] == 0}
         d['boundary_pairs'] += any((i + 1) in zeros for i in ends)
-        inc = _included(g, c['filter'], c.get('added') or [])
+        inc = _included(c['genome'], c['filter'], c.get('added') or [])
         used = {e[0] for e in c['entries']}
         d['empty_chromosome'] += bool(used) and any(i not in used for i in inc)
         d['ignored_in_genome'] += len(inc) < len(g)
@@ -525,7 +538,7 @@ def finding(case, o):
     (the model predicts the same outcome in these modes, so a case that also disagrees with the model is not one)."""
     op = case['op']
     es = _vis(case)
-    g = case['genome']
+    g = _g(case)
     if op[0] == 'seq' and op[1] == 1 and o.get('exc') == 'AttributeError' and "'_shape'" in o.get('msg', '') \
             and es and all(e[2] - e[1] == 1 for e in es):
         return 'C10-seq-stranded-all-length-one'
@@ -541,8 +554,9 @@ def signature(case, o):
 
 
 def explain(case, o):
-    names = [n for n, s in case['genome']]
-    return dict(python=('import bionumpy as bnp; g = bnp.Genome.from_dict(%r%s); entries (chromosome, start, stop, strand) = %r; op = %r'
+    names = [n for n, s in _g(case)]
+    return dict(python=('import bionumpy as bnp; g = bnp.Genome.from_dict(%r%s)%s; entries (chromosome, start, stop, strand) = %r; op = %r'
                         % ({n: s for n, s in case['genome']},
                            ', filter_function=ignore_underscores' if case['filter'] == 'us' else '',
+                           ''.join('.with_ignored_added(%r)' % (st,) for st in (case.get('added') or [])),
                            [(names[e[0]], e[1], e[2], '+' if e[3] else '-') for e in case['entries']], case['op'])))
